@@ -218,8 +218,8 @@ PROPS = {
         assumptions=['CelValue::clone is the identity on the abstract value (derive(Clone))', 'Vec<CelValue> -> CelValue::List conversion is element-wise identity (std blanket Into)'],
     ),
     'C08': dict(
-        units=['macros', 'value_coll', 'interp'],
-        not_covered=['the VM arms between the macro and the error origins (Access / Index arms: units interp_vm_g4 / g7, checked under C06): the origins themselves (InterpStack::pop -> unbound-variable error, index / access -> absent-field error) are in units interp / value_coll and are part of this check'],
+        units=['macros', 'value_coll', 'interp', 'interp_vm_g7'],
+        not_covered=['the Index arm of the VM between the macro and the error origins (unit interp_vm_g4, checked under C06; the Access arm IS part of this check: a field access on a failed object keeps that failure, F22): the origins themselves (InterpStack::pop -> unbound-variable error, index / access -> absent-field error) are in units interp / value_coll and are part of this check'],
         assumptions=[],
     ),
     'C04': dict(
